@@ -14,6 +14,8 @@
 // unchanged; arguments outside the data must be refused.  States are deduplicated by structure
 // (share partition, traits, flags, used/slack/capacity classes), arguments are relative to
 // used size and capacity so that every boundary is hit from every structural state.
+// Steps not yet known to be harmless are first executed in a throw-away process (see "pre-screening"),
+// so that a heap overflow of a defective tree is observed there and cannot corrupt the explorer.
 #include <csignal>
 #include <csetjmp>
 #include <cstdlib>
@@ -213,12 +215,10 @@ template <class DS> static bool screened(Run &r, char fam, uint64_t key, const s
 	uint32_t hd[2] = { (uint32_t) fam, (uint32_t) r.cur.size() };
 	std::string m((char *) hd, sizeof hd); m.append((const char *) r.cur.data(), r.cur.size() * sizeof(uint64_t));
 	uint32_t n = 0; std::string res;
-	struct timespec t0, t1; clock_gettime(CLOCK_MONOTONIC, &t0);
 	if (!wr_all(z_req, m.data(), m.size()) || !rd_all(z_resp, &n, 4)) { z_owner = 0; return true; }
 	res.resize(n);
 	if (n && !rd_all(z_resp, &res[0], n)) { z_owner = 0; return true; }
-	clock_gettime(CLOCK_MONOTONIC, &t1); r.count("screen-us", (t1.tv_sec - t0.tv_sec) * 1000000 + (t1.tv_nsec - t0.tv_nsec) / 1000);
-	r.beat(); r.count("screened-in-child");
+	r.beat();
 	if (r.expired()) g_expired = true;
 	if (res == "OK") { g_clean.insert(key); return true; }
 	if (!res.empty() && res[0] == '\x01') {
@@ -1496,14 +1496,21 @@ static std::string run_case(char fam, const Vec &v)
 }
 
 // ------------------------------------------------------------------ jobs
-static int depth_of(Tier t, char fam)
+// thorough: the byte families go one level deeper from the empty system and from the initial buffers that differ in one
+// aspect only (each flag combination / each content type / the nearly full buffer); all other initial buffers keep depth 4
+static bool deep_init(uint64_t init)
+{
+	if (!init) return true;
+	uint64_t c = init - 1; int fl = c % 4, tr = (c / 4) % 3, fill = (c / 12) % 2;
+	return (tr == 0 && fill == 0) || (fl == 0 && fill == 0) || (fl == 0 && tr == 0);
+}
+static int depth_of(Tier t, char fam, uint64_t init)
 {
 	switch (fam) {
-	case 'c': return t == Quick ? 3 : 4;
-	case 'x': return t == Quick ? 3 : 4;
-	case 't': return t == Quick ? 4 : 5;
-	case 'p': return t == Quick ? 4 : 5;
-	case 'm': return t == Quick ? 5 : 6;
+	case 'c': case 'x': return t == Quick ? 3 : (deep_init(init) ? 5 : 4);
+	case 't': return t == Quick ? 5 : 6;
+	case 'p': return t == Quick ? 5 : 6;
+	case 'm': return t == Quick ? 6 : 7;
 	}
 	return 3;
 }
@@ -1520,6 +1527,16 @@ void mc_jobs(Tier t, std::vector<std::string> &jobs)
 static void required(Run &r, char fam)
 {
 	r.require("nontrivial");
+	static const char *c[] = { "array_append:ok", "array_append:refused", "array_clone:ok", "array_insert:ok", "array_reduce:ok", "array_reserve:ok", "array_set:ok", "array_set:refused", "array_slice:ok",
+		"buffer_cut:ok", "buffer_cut:refused", "buffer_insert:ok", "buffer_insert:refused", "buffer_set:ok", "buffer_set:refused", "printf:ok", "printf:refused", "slice_write:ok", "slice_write:refused",
+		"reallocated", "target-shared-or-immutable", 0 };
+	static const char *x[] = { "array::append:ok", "array::insert:ok", "array::insert:refused", "array::set:ok", "array::operator=:ok", "array::operator=(slice):ok", "array::operator+=:ok", "printf:ok",
+		"slice::shift:ok", "slice::shift:refused", "slice::trim:ok", "slice::trim:refused", "slice_write:ok", "reallocated", "target-shared-or-immutable", 0 };
+	static const char *t[] = { "insert:ok", "insert:refused", "set:ok", "set:refused", "get:ok", "get:refused", "resize:ok", "resize:refused", "reserve:ok", "detach:ok", "assign:ok", "reallocated", "target-shared-or-immutable", 0 };
+	static const char *p[] = { "pointer_array::insert:ok", "pointer_array::set:ok", "pointer_array::compact:ok", "pointer_array::swap:ok", "pointer_array::swap:refused", "assign:ok", "target-shared-or-immutable", 0 };
+	static const char *m[] = { "map::set:ok", "map::append:ok", "map::get:ok", "map::values:ok", "assign:ok", "target-shared-or-immutable", 0 };
+	const char **k = fam == 'c' ? c : (fam == 'x' ? x : (fam == 't' ? t : (fam == 'p' ? p : m)));
+	for (; *k; ++k) r.require(std::string(1, fam) + ":" + *k);
 }
 void mc_explore(Run &r, const std::string &job)
 {
@@ -1527,11 +1544,11 @@ void mc_explore(Run &r, const std::string &job)
 	char fam = job[0]; uint64_t init = strtoull(job.c_str() + 2, 0, 10);
 	required(r, fam);
 	std::vector<uint64_t> inits(1, init);
-	if (fam == 'c') bfs_histories<RawSys<0> >(r, inits, depth_of(r.tier, fam));
-	else if (fam == 'x') bfs_histories<RawSys<1> >(r, inits, depth_of(r.tier, fam));
-	else if (fam == 't') bfs_histories<TSys>(r, inits, depth_of(r.tier, fam));
-	else if (fam == 'p') bfs_histories<PSys>(r, inits, depth_of(r.tier, fam));
-	else if (fam == 'm') bfs_histories<MSys>(r, inits, depth_of(r.tier, fam));
+	if (fam == 'c') bfs_histories<RawSys<0> >(r, inits, depth_of(r.tier, fam, init));
+	else if (fam == 'x') bfs_histories<RawSys<1> >(r, inits, depth_of(r.tier, fam, init));
+	else if (fam == 't') bfs_histories<TSys>(r, inits, depth_of(r.tier, fam, init));
+	else if (fam == 'p') bfs_histories<PSys>(r, inits, depth_of(r.tier, fam, init));
+	else if (fam == 'm') bfs_histories<MSys>(r, inits, depth_of(r.tier, fam, init));
 	for (auto &kv : st.merged()) r.count(std::string(1, fam) + ":" + kv.first, kv.second);
 	g_stats = 0;
 }
